@@ -56,6 +56,8 @@ def tasks(tier):
                 else:
                     sig = "nd" if how in ("ma", "ma2", "mai") else how
                 ts.append(("A", name, ci, how, sig, n if how == "nd" else n - 1))
+    for name, spec in G.SPECS.items():
+        ts.append(("L", name))
     ops = len(OPS)
     for first in range(ops):
         for second in range(-1, ops):
@@ -168,10 +170,16 @@ OPS = [
     ("attenuated_signal_test", 0, False), ("attenuated_signal_test", 3, False), ("density_inversion_test", 3, False),
     ("location_test", 3, False), ("speed_test", 0, False), ("pressure_increasing_test", 0, False),
     ("climatology_test", 2, True), ("climatology_test", 4, True), ("gross_range_test", 1, True), ("rate_of_change_test", 0, True),
+    # long records (700 points with gaps at 599/600, then 601 clean points): a pooled / grown scratch buffer that is not
+    # re-initialised between calls only shows when an earlier, longer call left something at the later call's tail
+    ("rate_of_change_test", 0, "L1"), ("rate_of_change_test", 0, "L2"), ("spike_test", 1, "L1"), ("spike_test", 1, "L2"),
+    ("pressure_increasing_test", 0, "L1"), ("pressure_increasing_test", 0, "L2"),
 ]
+LONG1, LONG2 = 700, 601
 HX = [0.0, 1.0, 3.0, alpha.NAN, 1.0, 1.0]
 HPOS = [0, 1, 2, 4, 1, 0]
 _BASE = {}
+LENGTHS = (255, 256, 257, 511, 512, 513, 767, 768, 769, 1000, 1001, 1023, 1024, 1025, 2047, 2048, 2049, 4095, 4096, 4097)
 
 
 class Shared:
@@ -188,6 +196,15 @@ class Shared:
         self.inp2 = alpha.nd([3.0, 1.0, alpha.NAN, 0.0])
         self.tinp2 = alpha.dt64([alpha.T0 + 86400 * d for d in (150, 190, 191, 300)])
         self.zinp2 = alpha.nd([50.0, 5.0, 5.0, alpha.NAN])
+        l1 = list(alpha.xl((0.0, 1.0, 3.0), LONG1, 3))
+        l1[599] = l1[600] = alpha.NAN
+        self.inpL = {"L1": alpha.nd(l1), "L2": alpha.nd(list(alpha.xl((1.0, 0.0, 3.0), LONG2, 3)))}
+        self.tinpL = {"L1": alpha.dt64(alpha.regular_secs(LONG1)), "L2": alpha.dt64(alpha.regular_secs(LONG2))}
+        p1 = [float(i) for i in range(LONG1)]
+        p1[300] = p1[299]
+        p1[400] = 398.5
+        p1[600] = p1[599]
+        self.pressureL = {"L1": alpha.nd(p1), "L2": alpha.nd([float(i) for i in range(LONG2)])}
         self.span_a = [0, 3]
         self.span_b = [1, 2]
         self.bbox = [-10, -5, 10, 5]
@@ -199,6 +216,8 @@ class Shared:
         d = dict(inp=self.inp, tinp=self.tinp, zinp=self.zinp, lon=self.lon, lat=self.lat, pressure=self.pressure,
                  inp2=self.inp2, tinp2=self.tinp2, zinp2=self.zinp2,
                  span_a=self.span_a, span_b=self.span_b, bbox=self.bbox)
+        for k in ("L1", "L2"):
+            d[f"inp{k}"], d[f"tinp{k}"], d[f"pressure{k}"] = self.inpL[k], self.tinpL[k], self.pressureL[k]
         for k, v in self.clim.items():
             d[f"clim{k}"] = v
         return d
@@ -219,11 +238,13 @@ class Shared:
         if spec["kind"] == "position":
             kw["lon"], kw["lat"] = self.lon, self.lat
         elif name == "pressure_increasing_test":
-            kw["inp"] = self.pressure
+            kw["inp"] = self.pressureL[alt] if alt in ("L1", "L2") else self.pressure
+        elif alt in ("L1", "L2"):
+            kw["inp"] = self.inpL[alt]
         else:
             kw["inp"] = self.inp2 if alt else self.inp
         if "t" in spec["needs"]:
-            kw["tinp"] = self.tinp2 if alt else self.tinp
+            kw["tinp"] = self.tinpL[alt] if alt in ("L1", "L2") else (self.tinp2 if alt else self.tinp)
         if "z" in spec["needs"]:
             kw["zinp"] = self.zinp2 if alt else self.zinp
         out = alpha.call(fn, **kw)
@@ -325,6 +346,19 @@ def run_task(task, acc):
                 for zm in zmodes:
                     yield dict(kind="A", fn=name, cfg=cfg, x=list(long_x), how=how, zmode=zm)
                     yield dict(kind="A", fn=name, cfg=cfg, x=list(long_x) * 5, how=how, zmode=zm)
+        run_cases(acc, gen(), check_case)
+    elif task[0] == "L":
+        # lengths around every block size an implementation could plausibly chunk by
+        name = task[1]
+        al = alphabet(name, "nd")
+
+        def gen():
+            for ci, cfg in enumerate(G.SPECS[name]["cfgs"]):
+                if ci > 1 and name not in ("spike_test", "attenuated_signal_test"):
+                    continue
+                base = list(alpha.xl(tuple(al), 4100, 3))
+                for ln in LENGTHS:
+                    yield dict(kind="A", fn=name, cfg=cfg, x=base[:ln], how="nd", zmode="ramp")
         run_cases(acc, gen(), check_case)
     else:
         _, first, second, depth = task
